@@ -13,6 +13,10 @@ def litRows : List String :=
    "checks", "peer.~:checks", "service_kind.typical", "peer.~:service_kind.typical",
    "peer.~:service_last_extinction", "peer.~:node_last_extinction"]
 
+/-- `k` is not a literal row -/
+structure OffLit (k : String) : Prop where
+  lit : ∀ l ∈ litRows, lc k ≠ lc l
+
 /-- `k` is neither a literal row nor a per-service row -/
 structure OffCat (k : String) : Prop where
   lit : ∀ l ∈ litRows, lc k ≠ lc l
@@ -25,6 +29,15 @@ theorem offCat_nodeKey (n : String) : OffCat (nodeKey n) := by
     rcases hl with rfl | rfl | rfl | rfl | rfl | rfl | rfl | rfl | rfl | rfl | rfl | rfl | rfl | rfl <;>
       simp [nodeKey, lc_eq_iff, ikey, String.toList_append]
   · intro m; simp [nodeKey, lc_eq_iff, ikey, String.toList_append]
+
+theorem OffCat.off {k : String} (h : OffCat k) : OffLit k := ⟨h.lit⟩
+
+theorem offLit_svcKey (n : String) : OffLit (svcKey n) := by
+  constructor
+  intro l hl
+  simp only [litRows, List.mem_cons, List.mem_nil_iff, or_false] at hl
+  rcases hl with rfl | rfl | rfl | rfl | rfl | rfl | rfl | rfl | rfl | rfl | rfl | rfl | rfl | rfl <;>
+    simp [svcKey, lc_eq_iff, ikey, String.toList_append]
 
 variable {i : Nat} {k : String}
 
@@ -43,14 +56,14 @@ theorem get_delIdx_ne (s : State) (k' : String) (h : lc k ≠ lc k') :
 
 theorem lc_peer (a b : String) (h : lc a = lc ("peer.~:" ++ b)) : lc a = lc ("peer.~:" ++ b) := h
 
-theorem get_maxIdx2_lit (hk : OffCat k) (s : State) (l : String) (v : Nat) (h1 : l ∈ litRows) (h2 : "peer.~:" ++ l ∈ litRows) :
+theorem getl_maxIdx2_lit (hk : OffLit k) (s : State) (l : String) (v : Nat) (h1 : l ∈ litRows) (h2 : "peer.~:" ++ l ∈ litRows) :
     idxGet (s.maxIdx2 l v).index k = idxGet s.index k := by
   unfold State.maxIdx2
   rw [get_maxIdx_ne _ _ _ (hk.lit _ h2), get_maxIdx_ne _ _ _ (hk.lit _ h1)]
 
 theorem get_bump (hk : OffCat k) (s : State) (nm : String) : idxGet (bumpServiceIdx s i nm).index k = idxGet s.index k := by
   unfold bumpServiceIdx
-  rw [get_maxIdx2_lit hk _ _ _ (by decide) (by decide), get_maxIdx_ne _ _ _ (hk.svc nm)]
+  rw [getl_maxIdx2_lit hk.off _ _ _ (by decide) (by decide), get_maxIdx_ne _ _ _ (hk.svc nm)]
 
 theorem get_foldl_bump (hk : OffCat k) (l : List Svc) (s : State) :
     idxGet (l.foldl (fun st (v : Svc) => bumpServiceIdx st i v.name) s).index k = idxGet s.index k := by
@@ -64,13 +77,13 @@ theorem get_updateAll (hk : OffCat k) (s : State) (node : String) :
 
 /-! ### the primitives that never touch an `OffCat` row -/
 
-theorem get_kvInsert (hk : OffCat k) (s : State) (e : KV) : idxGet (kvInsert s e).index k = idxGet s.index k :=
+theorem getl_kvInsert (hk : OffLit k) (s : State) (e : KV) : idxGet (kvInsert s e).index k = idxGet s.index k :=
   get_setIdx_ne _ _ _ (hk.lit _ (by decide))
 
-theorem get_tombInsert (hk : OffCat k) (s : State) (key : Key) : idxGet (tombInsert s key i).index k = idxGet s.index k :=
+theorem getl_tombInsert (hk : OffLit k) (s : State) (key : Key) : idxGet (tombInsert s key i).index k = idxGet s.index k :=
   get_setIdx_ne _ _ _ (hk.lit _ (by decide))
 
-theorem get_kvDelete (hk : OffCat k) {s s' : State} {key : Key} (hr : kvDeleteTxn s i key = .ok s') :
+theorem getl_kvDelete (hk : OffLit k) {s s' : State} {key : Key} (hr : kvDeleteTxn s i key = .ok s') :
     idxGet s'.index k = idxGet s.index k := by
   simp only [kvDeleteTxn] at hr
   repeat' (split at hr)
@@ -78,24 +91,24 @@ theorem get_kvDelete (hk : OffCat k) {s s' : State} {key : Key} (hr : kvDeleteTx
   all_goals (subst hr)
   · rfl
   · show idxGet (idxSet (tombInsert s key i).index "kvs" i) k = _
-    rw [get_setIdx_ne _ _ _ (hk.lit _ (by decide)), get_tombInsert hk]
+    rw [get_setIdx_ne _ _ _ (hk.lit _ (by decide)), getl_tombInsert hk]
 
-theorem get_kvDeleteTree (hk : OffCat k) (s : State) (p : Key) : idxGet (kvDeleteTreeTxn s i p).index k = idxGet s.index k := by
+theorem getl_kvDeleteTree (hk : OffLit k) (s : State) (p : Key) : idxGet (kvDeleteTreeTxn s i p).index k = idxGet s.index k := by
   unfold kvDeleteTreeTxn
   split
   · show idxGet (idxSet _ "kvs" i) k = _
     rw [get_setIdx_ne _ _ _ (hk.lit _ (by decide))]
     split
-    · exact get_tombInsert hk _ _
+    · exact getl_tombInsert hk _ _
     · rfl
   · rfl
 
-theorem get_removeSessionRow (hk : OffCat k) (s : State) (id : String) :
+theorem getl_removeSessionRow (hk : OffLit k) (s : State) (id : String) :
     idxGet ({ s with sessions := terase Sess.pk (lc id) s.sessions, index := idxSet s.index "sessions" i } : State).index k
       = idxGet s.index k :=
   get_setIdx_ne _ _ _ (hk.lit _ (by decide))
 
-theorem get_invalidateKeys (hk : OffCat k) (s : State) (sess : Sess) :
+theorem getl_invalidateKeys (hk : OffLit k) (s : State) (sess : Sess) :
     idxGet (invalidateKeys s i sess).index k = idxGet s.index k := by
   unfold invalidateKeys
   simp only
@@ -109,7 +122,7 @@ theorem get_invalidateKeys (hk : OffCat k) (s : State) (sess : Sess) :
     · show idxGet (idxSet (idxSet s.index "tombstones" i) "kvs" i) k = _
       rw [get_setIdx_ne _ _ _ h1, get_setIdx_ne _ _ _ h2]
 
-theorem get_dropSessionRefs (hk : OffCat k) (s : State) (id : String) :
+theorem getl_dropSessionRefs (hk : OffLit k) (s : State) (id : String) :
     idxGet (dropSessionRefs s i id).index k = idxGet s.index k := by
   unfold dropSessionRefs
   simp only
@@ -138,21 +151,21 @@ theorem get_checkPrep (hk : OffCat k) {s s1 : State} {p : Bool} {hc hc1 : Chk} {
     (hr : checkPrep s i p hc = .ok (s1, hc1, md)) : idxGet s1.index k = idxGet s.index k :=
   (keyKeep_checkPrep hk hr).eq
 
-theorem get_chkInsert (hk : OffCat k) (s : State) (c : Chk) : idxGet (chkInsert s c i).index k = idxGet s.index k := by
+theorem getl_chkInsert (hk : OffLit k) (s : State) (c : Chk) : idxGet (chkInsert s c i).index k = idxGet s.index k := by
   unfold chkInsert
-  exact get_maxIdx2_lit hk _ _ _ (by decide) (by decide)
+  exact getl_maxIdx2_lit hk _ _ _ (by decide) (by decide)
 
-theorem get_checkFinish (hk : OffCat k) (s : State) (p : Bool) (hc : Chk) (md : Bool) :
+theorem getl_checkFinish (hk : OffLit k) (s : State) (p : Bool) (hc : Chk) (md : Bool) :
     idxGet (checkFinish s i p hc md).index k = idxGet s.index k := by
   unfold checkFinish
   split
   · rfl
-  · exact get_chkInsert hk _ _
+  · exact getl_chkInsert hk _ _
 
-theorem get_insertSession (hk : OffCat k) (s : State) (x : Sess) : idxGet (insertSession s x i).index k = idxGet s.index k :=
+theorem getl_insertSession (hk : OffLit k) (s : State) (x : Sess) : idxGet (insertSession s x i).index k = idxGet s.index k :=
   get_setIdx_ne _ _ _ (hk.lit _ (by decide))
 
-theorem get_pqSet (hk : OffCat k) {s s' : State} {id sess : String} (hr : pqSet s i id sess = .ok s') :
+theorem getl_pqSet (hk : OffLit k) {s s' : State} {id sess : String} (hr : pqSet s i id sess = .ok s') :
     idxGet s'.index k = idxGet s.index k := by
   simp only [pqSet] at hr
   repeat' (split at hr)
@@ -160,7 +173,7 @@ theorem get_pqSet (hk : OffCat k) {s s' : State} {id sess : String} (hr : pqSet 
   all_goals (subst hr)
   all_goals exact get_setIdx_ne _ _ _ (hk.lit _ (by decide))
 
-theorem get_pqDelete (hk : OffCat k) (s : State) (id : String) : idxGet (pqDelete s i id).index k = idxGet s.index k := by
+theorem getl_pqDelete (hk : OffLit k) (s : State) (id : String) : idxGet (pqDelete s i id).index k = idxGet s.index k := by
   unfold pqDelete
   split
   · rfl
@@ -170,10 +183,36 @@ theorem get_deleteCheckPre (hk : OffCat k) (s : State) (node id : String) (x : C
     idxGet (deleteCheckPre s i node id x).index k = idxGet s.index k := by
   unfold deleteCheckPre
   simp only
-  rw [get_maxIdx2_lit hk _ _ _ (by decide) (by decide)]
+  rw [getl_maxIdx2_lit hk.off _ _ _ (by decide) (by decide)]
   show idxGet (if x.svcId ≠ "" then _ else _ : State).index k = _
   split
-  · rw [get_maxIdx2_lit hk _ _ _ (by decide) (by decide), get_maxIdx_ne _ _ _ (hk.svc _)]
-  · rw [get_maxIdx2_lit hk _ _ _ (by decide) (by decide), get_updateAll hk]
+  · rw [getl_maxIdx2_lit hk.off _ _ _ (by decide) (by decide), get_maxIdx_ne _ _ _ (hk.svc _)]
+  · rw [getl_maxIdx2_lit hk.off _ _ _ (by decide) (by decide), get_updateAll hk]
+
+/-! ### the same for rows that are also no per-service row -/
+
+theorem get_maxIdx2_lit (hk : OffCat k) (s : State) (l : String) (v : Nat) (h1 : l ∈ litRows) (h2 : "peer.~:" ++ l ∈ litRows) :
+    idxGet (s.maxIdx2 l v).index k = idxGet s.index k := getl_maxIdx2_lit hk.off s l v h1 h2
+theorem get_kvInsert (hk : OffCat k) (s : State) (e : KV) : idxGet (kvInsert s e).index k = idxGet s.index k := getl_kvInsert hk.off s e
+theorem get_kvDelete (hk : OffCat k) {s s' : State} {key : Key} (hr : kvDeleteTxn s i key = .ok s') :
+    idxGet s'.index k = idxGet s.index k := getl_kvDelete hk.off hr
+theorem get_kvDeleteTree (hk : OffCat k) (s : State) (p : Key) : idxGet (kvDeleteTreeTxn s i p).index k = idxGet s.index k :=
+  getl_kvDeleteTree hk.off s p
+theorem get_removeSessionRow (hk : OffCat k) (s : State) (id : String) :
+    idxGet ({ s with sessions := terase Sess.pk (lc id) s.sessions, index := idxSet s.index "sessions" i } : State).index k
+      = idxGet s.index k := getl_removeSessionRow hk.off s id
+theorem get_invalidateKeys (hk : OffCat k) (s : State) (sess : Sess) :
+    idxGet (invalidateKeys s i sess).index k = idxGet s.index k := getl_invalidateKeys hk.off s sess
+theorem get_dropSessionRefs (hk : OffCat k) (s : State) (id : String) :
+    idxGet (dropSessionRefs s i id).index k = idxGet s.index k := getl_dropSessionRefs hk.off s id
+theorem get_chkInsert (hk : OffCat k) (s : State) (c : Chk) : idxGet (chkInsert s c i).index k = idxGet s.index k := getl_chkInsert hk.off s c
+theorem get_checkFinish (hk : OffCat k) (s : State) (p : Bool) (hc : Chk) (md : Bool) :
+    idxGet (checkFinish s i p hc md).index k = idxGet s.index k := getl_checkFinish hk.off s p hc md
+theorem get_insertSession (hk : OffCat k) (s : State) (x : Sess) : idxGet (insertSession s x i).index k = idxGet s.index k :=
+  getl_insertSession hk.off s x
+theorem get_pqSet (hk : OffCat k) {s s' : State} {id sess : String} (hr : pqSet s i id sess = .ok s') :
+    idxGet s'.index k = idxGet s.index k := getl_pqSet hk.off hr
+theorem get_pqDelete (hk : OffCat k) (s : State) (id : String) : idxGet (pqDelete s i id).index k = idxGet s.index k :=
+  getl_pqDelete hk.off s id
 
 end CV.Store
